@@ -291,6 +291,9 @@ def run(chk):
     chk.cov["input_distribution"] = dist
     chk.cov["samples"] = [pairs[j][0][:300] + " => " + pairs[j][2][:160] for j in (0, len(pairs) // 2) if j < len(pairs)]
     chk.cov["traces_validated_against_impl"] = len(pairs)
+    # the limits as the application configures them on http_server: they must reach every connection's receiver
+    import simcheck
+    simcheck.run_sim(chk, H=simcheck.limit_histories(chk), label="h_sim(configured limits)")
 
 
 def replay(body):
@@ -299,6 +302,9 @@ def replay(body):
     case = r.get("case")
     if not case:
         print("nothing to replay: " + json.dumps(r)[:500]); return 1
+    if case.startswith("sim "):
+        import simcheck
+        return simcheck.replay(body)
     hb, _ = vlib.build_harness("h_stream")
     out, _ = vlib.run_cases_resilient(hb, [case])
     p = G.parse_out(out[0]) if out else None
